@@ -3,7 +3,7 @@ From Coq Require Import NArith List Bool.
 Import ListNotations.
 From DV Require Import Base.Outcome C18.Gen C18.Model C18.Proofs C18.ProofsEnc C18.ProofsSpec
   C18.ProofsDec64 C18.ProofsDec32 C18.ProofsApi C18.ProofsApi2 C18.ProofsConv C18.ProofsPostFix
-  C18.ProofsCap C18.ProofsGrammar C18.ProofsUsers C18.ProofsScan2.
+  C18.ProofsCap C18.ProofsGrammar C18.ProofsUsers C18.ProofsScan2 C18.ModelName C18.ProofsAgree C18.ProofsName.
 Local Open Scope N_scope.
 
 Theorem C18_encode_tables_are_rfc4648 :
@@ -346,8 +346,9 @@ Print Assumptions C18_decode_cap_spec.
    decode is push-with-? then finalize, ShortBuf is handled as modelled *)
 Theorem C18_t1_shape_anchors :
   encode_wrappers_are_display = true /\ shortbuf_paths_as_modelled = true /\
-  decode_is_push_try_finalize = true /\ serde_modules_use_codecs = true.
-Proof. exact (conj eq_refl (conj eq_refl (conj eq_refl eq_refl))). Qed.
+  decode_is_push_try_finalize = true /\ serde_modules_use_codecs = true /\
+  codec_entry_points_as_listed = true /\ nsec3_serde_uses_text_entry_points = true.
+Proof. exact (conj eq_refl (conj eq_refl (conj eq_refl (conj eq_refl (conj eq_refl eq_refl))))). Qed.
 Print Assumptions C18_t1_shape_anchors.
 
 (* ---- the other token-reading methods of IterScanner; display into a failing writer ---- *)
@@ -395,3 +396,46 @@ Theorem C18_b16_display_into_writer : forall bs room, octets bs ->
       else ((spec_enc16 (firstn (N.to_nat (room / 2)) bs), room - 2 * (room / 2)), false)).
 Proof. exact b16_display_into_writer. Qed.
 Print Assumptions C18_b16_display_into_writer.
+
+(* ---- round 3: characters above ASCII, agreement of the text entry points, scan_name ---- *)
+
+Theorem C18_decode_rejects_above_ascii : forall s, Exists (fun c => 127 < c) s ->
+  (exists e, b64_decode s = Err e) /\ (exists e, b32_decode s = Err e) /\ (exists e, b16_decode s = Err e).
+Proof. exact decode_rejects_above_ascii. Qed.
+Print Assumptions C18_decode_rejects_above_ascii.
+
+Theorem C18_push_rejects_above_ascii : forall ch, 127 < ch ->
+  (forall d, d64_next d <> 240 -> b64_push_char d ch = Ok (d, Some (E_illegal ch))) /\
+  (forall d, b32_push d ch = Ok (mk32 (d32_buf d) (d32_next d) (Err (E_illegal ch)), Some (E_illegal ch))) /\
+  (forall d, b16_push d ch = Ok (mk16 (d16_buf d) (Err (E_illegal ch)), Some (E_illegal ch))).
+Proof. exact push_rejects_above_ascii. Qed.
+Print Assumptions C18_push_rejects_above_ascii.
+
+Theorem C18_converters_reject_above_ascii : forall chunks, Exists (fun c => 127 < c) (concat chunks) ->
+  (forall bs, b64_convert chunks <> Ok bs) /\ (forall bs, b32_convert chunks <> Ok bs) /\
+  (forall bs, b16_convert chunks <> Ok bs).
+Proof. exact converters_reject_above_ascii. Qed.
+Print Assumptions C18_converters_reject_above_ascii.
+
+Theorem C18_salt_scan_agrees_from_str : forall s bs, ~ In 92 s ->
+  (salt_scan s = Ok bs <-> salt_from_str s = Ok bs).
+Proof. exact (salt_scan_agrees_from_str iter_scanner_checks_escapes). Qed.
+Print Assumptions C18_salt_scan_agrees_from_str.
+
+Theorem C18_hash_scan_agrees_from_str : forall s bs, ~ In 92 s ->
+  (hash_scan s = Ok bs <-> hash_from_str s = Ok bs).
+Proof. exact (hash_scan_agrees_from_str iter_scanner_checks_escapes). Qed.
+Print Assumptions C18_hash_scan_agrees_from_str.
+
+Theorem C18_scan_name_refuses_bad_escapes : forall token, snd (symbols token) = false ->
+  forall w, scan_name token <> Ok w.
+Proof. exact scan_name_refuses_bad_escapes. Qed.
+Print Assumptions C18_scan_name_refuses_bad_escapes.
+
+Theorem C18_b32_display_into_writer : forall bs room, octets bs ->
+  b32_display_w ([], room) bs =
+  Ok (if N.of_nat (length (spec_enc32 bs)) <=? room
+      then ((spec_enc32 bs, room - N.of_nat (length (spec_enc32 bs))), true)
+      else ((firstn (N.to_nat room) (spec_enc32 bs), 0), false)).
+Proof. exact b32_display_into_writer. Qed.
+Print Assumptions C18_b32_display_into_writer.
